@@ -19,6 +19,11 @@ Circuit: 1-5 blocks from
     on_enter events (both also restored from saved state);
   * FuncBlocks (some raise or return UNDEF in the first evaluation), _not_ shortcuts;
   * blocks with asynchronous clean-up (Repeat, OutputAsync, probe with stop_async);
+  * senders that swallow exceptions: emissions from _restore_state (the library only logs
+    errors of a restore), a persistent Counter restoring its state with an on_output event,
+    emissions wrapped in try/except ('catch'); every 8th index (index % 8 == 3) is the stratum
+    "destination whose init_regular/init_from_value raises but which gets a valid output
+    (saved state / later put), run early by an event of a swallowing sender";
   * a marker probe that is always restored from saved state (public-API landmark for the
     first synchronous pass);
 plus external events during the asynchronous phase and 1-4 wait_init() callers (created
@@ -36,7 +41,11 @@ Oracle
   (b) wait_init(): returns normally => at that very moment no block (S or C) is UNDEF,
       is_ready() and error is None; start-up failed => every caller gets EdzedInvalidState
       and the simulation task ends with the error; running fine => every caller returned.
-  (c) consistency of the verdict: a failing first evaluation => failure; a failure needs a
+  (c) consistency of the verdict: a failing first evaluation => failure; an init_regular /
+      init_from_value that raised => failure for every creation order, whoever ran the routine
+      (the simulator, or an event that made the synchronous steps run early) and whatever the
+      sender of that event does with the exception (a state restore only logs it, a relay may
+      catch it); a failure needs a
       witnessed cause (a raising routine/handler/function or a block that is still UNDEF);
       a failure by an uninitialised block only after every block's routines were run.
   (d) library blocks: Input puts (saved state, else initdef, before any event), ValuePoll
@@ -117,7 +126,9 @@ RULE = ("one run = one generated configuration (1-5 scripted init probes / Input
         "output events), 0-2 async-stop blocks, a marker probe; init-time event topology acyclic "
         "apart from echoes; 0-2 external events; 1-4 wait_init() callers incl. a late one) "
         "executed under 2-4 creation-order permutations with identical knobs; every 8th index "
-        "is the stratum 'failing first evaluation x async-stop block'; non-trivial = in some "
+        "is the stratum 'failing first evaluation x async-stop block', every index = 3 mod 8 the "
+        "stratum 'raising init routine run early by an event of an exception-swallowing sender "
+        "(restore path, persistent Counter, catching relay)'; non-trivial = in some "
         "permutation an init_async routine ran, or an event from another block was delivered "
         "during the start-up, or the start-up failed; "
         "distinct = hash of (block kinds, per block routine/outcome sequence, handler records, "
@@ -132,16 +143,14 @@ REACH_EXPECTED = [
     'vpoll_value_in_time', 'vpoll_initdef_after_timeout', 'initasync_result', 'initasync_failed',
     'initasync_event_filtered', 'waiter_cancelled', 'waiter_late', 'waiter_mid_async',
     'waiter_refused', 'perm_verdicts_compared', 'perm_verdicts_compared_failure',
-    'async_tie_at_timeout']
+    'async_tie_at_timeout', 'init_routine_raised', 'init_raise_early_by_event',
+    'init_raise_early_swallowing_sender']
 ASSUMPTIONS = [
     "scripted init_async routines react to cancellation at once",
     "time bounds: not cancelled earlier than T - (1us + 40 x per-callback cost); phase ends "
     "within max T + (1us + 4 x latency + 400 x per-callback cost)",
     "saved state never expires here (expiration is C06's subject)",
     "event filters are only exercised, their semantics is C16's subject",
-    "the creation-order comparison is void when an init_regular/init_from_value raised while "
-    "being run early on behalf of an event (user code against the documented rule 'do not "
-    "raise'; the error is absorbed by whichever sender comes first)",
 ]
 
 
@@ -265,8 +274,57 @@ def guaranteed_source(b):
     return True
 
 
+def gen_swallow_scenario(rng):
+    """
+    Stratum: a destination whose init_regular / init_from_value raises although the block gets
+    a valid output (saved state, or a later 'put'), and whose synchronous steps are run early
+    by an event from a sender that swallows exceptions: a persistent Counter restoring its
+    state (library code: errors of a restore are only logged), a probe emitting from its
+    _restore_state, or a relay that catches. Must fail for every creation order.
+    """
+    def plain(name):
+        return {'kind': 'probe', 'name': name, 'persist': None, 'async': None,
+                'regular': {'act': 'leave', 'emit': []}, 'ifv': None, 'stop_async': None,
+                'on_output': []}
+    dest = plain('dx')
+    senders = []
+    variant = rng.choice(['regular', 'regular', 'ifv'])
+    bad = rng.choice(['raise', 'raise', 'set_undef'])
+    if variant == 'regular':
+        dest['regular']['act'] = bad
+        dest['persist'] = {'stored': True, 'act': 'set', 'emit': []}
+    else:
+        dest['ifv'] = {'initdef': True, 'act': 'raise', 'emit': []}
+        late = plain('sl')      # gives the destination its valid output afterwards
+        late['regular'] = {'act': 'set', 'emit': [{'dest': 'dx', 'etype': 'put', 'pos': 'post',
+                                                    'echo': False}]}
+        senders.append(late)
+    for k in range(rng.randint(1, 2)):
+        how = rng.choice(['counter', 'restore', 'catch-regular', 'catch-restore', 'catch-ifv'])
+        et = rng.choice(['put', 'nop'])
+        em = {'dest': 'dx', 'etype': et, 'pos': rng.choice(['pre', 'post']), 'echo': False}
+        if how == 'counter':
+            senders.append({'kind': 'counter', 'name': f"cn{k}", 'stored': True, 'on_output': ['dx']})
+            continue
+        snd = plain(f"sw{k}")
+        snd['regular']['act'] = 'set'
+        if how in ('restore', 'catch-restore'):
+            snd['persist'] = {'stored': True, 'act': rng.choice(['set', 'leave']), 'emit': [em]}
+        elif how == 'catch-regular':
+            snd['regular']['emit'].append(em)
+        else:
+            snd['regular']['act'] = 'leave'
+            snd['ifv'] = {'initdef': True, 'act': 'set', 'emit': [em]}
+        if how.startswith('catch'):
+            em['catch'] = True
+        senders.append(snd)
+    rng.shuffle(senders)
+    return senders + [dest]
+
+
 def gen(rng, tier, index=0):
     f3_stratum = index % 8 == 0
+    swallow_stratum = index % 8 == 3
     flags = {
         'emit': rng.random() < 0.7, 'async': rng.random() < 0.7, 'faults': rng.random() < 0.3,
         'lib': rng.random() < 0.6, 'cblocks': rng.random() < 0.5 or f3_stratum,
@@ -305,6 +363,8 @@ def gen(rng, tier, index=0):
                         et = rng.choice(['unknown', 'boom'])
                     em = {'dest': blocks[j]['name'], 'etype': et,
                           'pos': rng.choice(['pre', 'post']), 'echo': False}
+                    if flags['faults'] and rng.random() < 0.3:
+                        em['catch'] = True      # a relay that catches what the delivery raises
                     if flags['echo'] and dk == 'probe' and et in ('put', 'nop') and rng.random() < 0.5:
                         em['echo'] = True
                         has_echo = True
@@ -383,11 +443,12 @@ def gen(rng, tier, index=0):
                 else:
                     a['dest'] = blocks[rng.choice(putacc)]['name']
             astops.append(a)
+    extra = gen_swallow_scenario(rng) if swallow_stratum else []
     marker = {'kind': 'probe', 'name': 'zmark', 'sentinel': True,
               'persist': {'stored': True, 'act': 'set', 'emit': []}, 'async': None,
               'regular': {'act': 'leave', 'emit': []}, 'ifv': None, 'stop_async': None,
               'on_output': []}
-    allblocks = blocks + cblocks + astops + [marker]
+    allblocks = blocks + extra + cblocks + astops + [marker]
 
     # ---- external events during the start-up, waiters
     ext = []
@@ -429,6 +490,8 @@ class Ctx:
         self.vp_last = {}
         self.iac = {}
         self.echoed = set()
+        self.emitting = []          # emissions of probe routines in progress (innermost last)
+        self.last_src = {}          # block -> source of the event being delivered
         self.sets = collections.defaultdict(list)   # library blocks: values given to set_output
         self.delivered = collections.defaultdict(list)  # dest -> [source]
 
@@ -445,8 +508,14 @@ class Ctx:
 
     # ---- scripted routines
     def rbegin(self, blk, which):
-        self.rec('rb', blk.name, r=which, forced=self.evdepth[blk.name] > 0,
-                 init=blk.is_initialized())
+        forced = self.evdepth[blk.name] > 0
+        trig = None
+        if forced:
+            src = self.last_src.get(blk.name)
+            trig = [src, self.plan_kinds.get(src)]
+            if self.emitting and self.emitting[-1][0] == src:
+                trig += [self.emitting[-1][1], self.emitting[-1][2]]
+        self.rec('rb', blk.name, r=which, forced=forced, init=blk.is_initialized(), trig=trig)
 
     def rend(self, blk, which, out, exc=None):
         self.rec('re', blk.name, r=which, out=out, init=blk.is_initialized(), exc=exc)
@@ -521,13 +590,22 @@ class Ctx:
         if ev is None:
             raise PlanError('emission without event object')
         self.rec('emit', blk.name, r=which, dest=em['dest'], et=em['etype'])
+        self.emitting.append((blk.name, which, bool(em.get('catch'))))
         try:
             ev.send(blk, value=f"ev:{blk.name}:{which}")
         except Exception as err:
+            if em.get('catch'):
+                self.rec('emit-swallowed', blk.name, r=which, dest=em['dest'],
+                         exc=type(err).__name__)
+                # (the delivery may have aborted the simulation: failing handler, recursion)
+                self.causes.append(f"emit-swallowed:{blk.name}:{which}:{type(err).__name__}")
+                return
             self.rec('emit-exc', blk.name, r=which, dest=em['dest'], exc=type(err).__name__)
             if which in ('regular', 'ifv'):
                 self.causes.append(f"emit-exc:{blk.name}:{which}")
             raise
+        finally:
+            self.emitting.pop()
 
     # ---- event handlers of the probes
     def handler(self, blk, etype, value, source):
@@ -555,6 +633,7 @@ class Ctx:
         if phase == 'pre':
             self.evdepth[name] += 1
             src = payload.get('source')
+            self.last_src[name] = src
             self.rec('ep', name, et=canon(etype), src=src, init=blk.is_initialized())
             self.delivered[name].append(src)
         else:
@@ -803,6 +882,11 @@ def build(ctx, plan, order, storage):
             elif kind == 'repeat':
                 blk = edzed.Repeat(name, dest=need(b['dest'], ('probe', 'input')), etype='put',
                                    interval=1.0, x_kind='repeat')
+            elif kind == 'counter':
+                blk = edzed.Counter(name, persistent=True, x_kind='counter',
+                                    on_output=put_events(b.get('on_output', [])))
+                if b.get('stored'):
+                    storage[blk.key] = 5
             elif kind == 'oasync':
                 blk = edzed.OutputAsync(name, coro=ocoro, mode='wait', on_error=None,
                                         stop_timeout=2.0, x_kind='oasync')
@@ -1147,6 +1231,32 @@ def judge(run, ctx, plan, specs, made, info, has_astop, out):
             if ab and ab[0]['t'] <= t_rel and (not ae or t_rel <= max(e['t'] for e in ae)):
                 run.fired('reach:waiter_mid_async')
     # ---- (c) consistency of the verdict
+    # an init_regular / init_from_value that raised: the block cannot be initialised, the
+    # start-up must fail - whoever ran the routine (the simulator, or an event that made the
+    # synchronous steps run early) and whatever the sender of that event does with exceptions
+    for e in log:
+        if not (e['k'] == 're' and e['r'] in ('regular', 'ifv') and e['out'] == 'exc'):
+            continue
+        rb = next(x for x in log if x['k'] == 'rb' and x['b'] == e['b'] and x['r'] == e['r'])
+        trig = rb.get('trig')
+        run.fired('reach:init_routine_raised')
+        if not rb['forced']:
+            how = 'by-simulator'
+        else:
+            how = 'early-by-event'
+            swallowing = bool(trig) and (trig[1] == 'counter' or (
+                len(trig) > 2 and (trig[2] == 'restore' or trig[3])))
+            if swallowing:
+                how = 'early-by-event-from-swallowing-sender'
+                run.fired('reach:init_raise_early_swallowing_sender')
+            run.fired('reach:init_raise_early_by_event')
+        if verdict == 'success':
+            run.violate(
+                f"C05/init-routine-raised-but-started/{e['r']}/{how}",
+                f"{e['b']}: {'init_regular' if e['r'] == 'regular' else 'init_from_value'} raised "
+                f"{e.get('exc')} ({how}, trigger {trig}), output valid={e['b'] not in undef}; "
+                "the start-up succeeded and wait_init() returned normally")
+            break
     if verdict == 'success':
         run.fired('reach:startup_success')
         if undef or not ready or err is not None or simdone:
@@ -1225,14 +1335,6 @@ def judge(run, ctx, plan, specs, made, info, has_astop, out):
     out['beh'] = [sorted(b['kind'] for b in plan['blocks']), verdict,
                   sorted((n, s) for n, s in seqs.items()),
                   sorted((r['label'], r['outcome']) for r in info['waiters'])]
-    # an init_regular/init_from_value that raises while it is run early on behalf of an event
-    # (against the documented rule "do not raise") is absorbed by whichever routine sent that
-    # event first: the outcome then legitimately depends on the creation order
-    out['absorbed_init_error'] = any(
-        e['k'] == 're' and e['r'] in ('regular', 'ifv') and e['out'] == 'exc'
-        and any(b['k'] == 'rb' and b['b'] == e['b'] and b['r'] == e['r'] and b['forced']
-                for b in log[:e['i']])
-        for e in log)
     out['nontrivial'] = bool(
         any(e['k'] == 'rb' and e['r'] == 'async' for e in log)
         or any(e['k'] == 'ep' and e['src'] is not None for e in log)
@@ -1279,9 +1381,7 @@ def execute(plan, trace=False):
     # ---- (e) metamorphic: the verdict does not depend on the creation order
     verdicts = [o['verdict'] for o in outs]
     if harness is None and len(outs) > 1 and None not in verdicts:
-        if any(o.get('absorbed_init_error') for o in outs):
-            stats['perm_comparison_void_absorbed_init_error'] += 1
-        elif len(set(verdicts)) > 1:
+        if len(set(verdicts)) > 1:
             ref = outs[0]
             for pidx, o in enumerate(outs[1:], start=1):
                 if o['verdict'] == ref['verdict']:
